@@ -20,7 +20,7 @@ def ws_norm(out):
     """projection: lines with runs of blanks collapsed (insensitive to column widths / padding)"""
     return b"\n".join(re.sub(rb"[ \t]+", b" ", l).strip() for l in out.split(b"\n"))
 
-PIPE_CMDS = ("print", "csv-log", "csv-db", "csv-db-resolved", "reg", "bal", "quantity", "totals", "unresolved", "summary", "element-total")     # each opens each of its files once
+PIPE_CMDS = ("print", "csv-log", "csv-db", "csv-db-resolved", "reg", "bal", "quantity", "totals", "unresolved", "summary", "element-total", "stats")     # each opens each of its files once
 
 def cli_diff(ctx, cases, project=None, tag="", inproc=False, keyf=None, pipe_frac=0.0):
     """runs the cases through the model and the implementation; records a violation for each class of mismatch.
@@ -229,6 +229,12 @@ def check_C01(ctx):
         for _ in range(ctx.scale(4, 40)):
             b = gen.render_items(r, gen.chain_book(r, N - 1)); books.append((b, {})); depths.append(N); ctx.nontriv(b)
     resolve_stream(ctx, books, depths, ctx.scale(8, 16), "C01")
+    # a refused book (too deep, cyclic) and then, in the same process, a good book with the same recipe names: nothing of the first call is left over for the second
+    books, depths = [], []
+    for _ in range(ctx.scale(40, 400)):
+        bad = gen.render_items(r, gen.chain_book(r, r.randint(4, 7), cyc=r.choice([None, 0, 1]), leaf=False)); books.append((bad, {})); depths.append(r.choice([2, 3]))
+        good = gen.render_items(r, gen.chain_book(r, r.randint(1, 5))); books.append((good, {})); depths.append(10); ctx.nontriv(bad + good)
+    resolve_stream(ctx, books, depths, 1, "C01")
     # through the command line: resolved export, element-total, register ingredient lines
     cases = []
     for k in range(ctx.scale(400, 4000)):
@@ -426,6 +432,9 @@ def check_C04(ctx):
     BOM = b"\xef\xbb\xbf"
     for f in wf[:ctx.scale(60, 1000)]:
         cases.append(dict(files={"food.yaml": BOM + f["data"]}, cmd="csv-db", **NOCOLOR))
+    # the file entry points of the parser (ParseFileCallback: stats reads its two files through it), on regular files and through pipes
+    for f in wf[:ctx.scale(60, 1000)]:
+        cases.append(dict(files={"food.yaml": f["data"], "log.yaml": b"2011/07/17:\n  a: 1\n2011/07/18:\n  b: 2\n"}, cmd="stats", f_today="2011/08/01", **NOCOLOR))
     cli_diff(ctx, cases, tag="C04:", pipe_frac=0.34)
     parse_stream_diff(ctx, [BOM + f["data"] for f in wf[:ctx.scale(300, 5000)]] + [BOM, BOM + b"\n", BOM[:2] + b"a:\n  x 1\n"], "C04:byte-order-mark")
     return dict(rule="(1) every string of <= %d tokens over a 12-token alphabet (letters incl. non-ASCII, digit, '.', '-', ':', quote, '#', space, tab, LF, CR) through "
@@ -459,6 +468,18 @@ def check_C09(ctx):
         nline = lines.index(bad1) + 1
         longc.append((dict(files={"f.yaml": data}, cmd="lint", arg=b"f.yaml", **NOCOLOR), nline, bad1))
         ctx.nontriv(kind.encode() + bytes(str(n), "ascii") + bad1)
+    tailc = []
+    for k in range(ctx.scale(6, 40)):
+        nbad = r.choice([1, 2, 3, 24, 25, 26, 40])
+        bads = [r.choice([b"  oops%d" % j, b"  b%d: 1.2.3" % j, b"  c%d:1" % j]) for j in range(nbad)]
+        lines = [b"rec:", b"  a: 1"] + bads + [b"  ok: 2", b"  " + b"x" * 70000 + b": 1", b"  after: 1"]
+        tailc.append((dict(files={"f.yaml": b"\n".join(lines) + b"\n"}, cmd="lint", arg=b"f.yaml", silent=r.random() < 0.3, **NOCOLOR), bads))
+    tres = cli_diff(ctx, [c for c, _ in tailc], tag="C09:lint-unreadable-tail:")
+    for (c, bads), i in zip(tailc, tres):
+        ctx.tally("lint_malformed_lines_before_an_unreadable_line", len(bads))
+        shown = [bd for bd in bads if bd in i["stdout"]]
+        if i["status"] == "ok" or len(shown) != len(bads):
+            ctx.violation("C09:lint-before-unreadable-line", "lint on %d malformed lines followed by a line of 70000 bytes: status %s, %d of them reported" % (len(bads), i["status"][:30], len(shown)), dict(kind="cli", case=c, impl=dict(i, stdout=i["stdout"][:2000])))
     lres = cli_diff(ctx, [c for c, _, _ in longc], tag="C09:lint-long-line:")
     for (c, nline, bad1), i in zip(longc, lres):
         first = i["stdout"].split(b"\n")[0] if i["stdout"] else b""
@@ -494,7 +515,7 @@ def check_C09(ctx):
     # malformed line in the log: rendered with date headings
     for _ in range(ctx.scale(300, 6000)):
         days = gen.day_list(r, 4, sorted_=True)
-        it, fn = gen.syntax_items(r, n_records=len(days), bad=0.25, fancy=0.2, heading=lambda rr, i: gen._fmt("2006/01/02", *days[i]), pre_heading_junk=0)
+        it, fn = gen.syntax_items(r, n_records=len(days), bad=0.25, fancy=0.2, heading=lambda rr, i: gen._fmt("2006/01/02", *days[i]), pre_heading_junk=0.3)
         mm = run.run_model([run.req(pairs=[("op", "syntax")] + gen.syntax_pairs(it, fn))])[0].decode().split(" ")
         if mm[0] != "wf": continue
         data, want = bytes.fromhex(mm[2]), bytes.fromhex(mm[3])
